@@ -50,6 +50,12 @@ def check(repo, col, tier):
     col.rule("R-C06-stepcount", "steps behind the returned state == steps returned, with and without checkpointing", 2)
     ig_ = repo.func(IG, "integrate")
     c07._stepcount(repo, col, ig_, idx.expander(repo, ig_), "R-C06-stepcount")
+    # the recordings are the same under every checkpointing layout: column 0 is the initial state, column k the state after k steps,
+    # cut at the requested number of steps BEFORE anything else is appended (shared with C07/C08)
+    from . import c08 as _c08
+    col.rule("R-C06-recs", "recs = concat([initial recording, recordings[:n]]).T", 3)
+    _c08._recs(repo, col.renamed({"R-C08-recs": "R-C06-recs"}))
+
 
 
 def _pure(repo, col):
@@ -263,6 +269,26 @@ def taint(repo, col, R):
                 sink = ("assert", n.test)
             elif isinstance(n, ast.IfExp):
                 sink = ("conditional expression", n.test)
+            elif isinstance(n, ast.Subscript) and isinstance(n.ctx, ast.Load) and fi.cls in ("Module", "Network") and fi.name == "step":
+                # a NUMPY array subscripted with an index that is a jax array: under jit the row lists of the inputs are tracers as soon as
+                # data-fed inputs were concatenated to them (add_stimuli / add_clamps use jnp.concatenate), and numpy cannot index with a tracer
+                try:
+                    bt = idx.inline(repo, fi, ex.term(n.value), value_only=True)
+                except Exception:
+                    bt = None
+                is_np = bt is not None and ((bt.op == "mcall" and bt.name in ("to_numpy", "tolist")) or
+                                            (bt.op == "mcall" and bt.args and bt.args[0].op == "free" and bt.args[0].name == "np") or
+                                            (bt.op == "attr" and bt.name == "values"))
+                if is_np:
+                    it = ex.term(n.slice)
+                    n_sinks += 1
+                    bad_ix = T.find(it, lambda x: x.op == "param" and x.name == "external_inds") is not None
+                    col.check(not bad_ix, R, fi, f"numpy array `{unparse(n.value)[:50]}` is indexed with static indices",
+                              "jnp.asarray(...)[inds] for the row lists of the inputs",
+                              f"`{unparse(n)[:80]}` indexes a numpy array with the row list of an input: with data-fed inputs that list is a jax array "
+                              f"(jnp.concatenate in add_clamps / add_stimuli) and a tracer under jit, so the eager call works and jit raises "
+                              f"TracerArrayConversionError", node=n)
+                continue
             elif isinstance(n, ast.Call):
                 fn = unparse(n.func)
                 if fn.startswith("np.") and n.args:
